@@ -25,6 +25,8 @@ func init() {
 		return []*vexplore.Scenario{
 			{Name: fmt.Sprintf("req-hist-D%d", d), Mode: "hist", Bound: 0, Reset: kit.ResetGlobals,
 				Body: func() { hist(d) }, NeedCounters: []string{"stale-ignored", "reply-delivered", "canceled-by-send", "protostate", "dup-ignored", "foreign-ignored", "recv-timed-out", "late-reply-after-timeout-ignored", "retry-disabled"}},
+			{Name: fmt.Sprintf("req-connection-loss-hist-D%d", d+1), Mode: "hist", Bound: 0, Reset: kit.ResetGlobals,
+				Body: func() { histFaults(d + 1) }, NeedCounters: []string{"stale-ignored", "reply-delivered", "retransmitted", "send-waited-for-a-peer", "abandoned-while-queued", "stale-after-queued-abandon-ignored", "given-up-after-loss-without-retry"}},
 			{Name: "req-sched-send-recv-reply", Mode: "sched", Bound: b, Reset: kit.ResetGlobals, Body: schedSendRecvReply},
 			{Name: "req-sched-two-ctx", Mode: "sched", Bound: b, Reset: kit.ResetGlobals, Body: schedTwoCtx},
 		}
@@ -53,6 +55,11 @@ type mctx struct {
 	timedOut bool // the current id belongs to a request whose Recv timed out
 	closed bool
 	nsent  int
+	// connection-loss histories
+	payload   string
+	pending   *kit.Call // Send waiting for a peer
+	queuedAbandon bool  // prev was abandoned while it was waiting for a connection to be re-sent on
+	lastPipe  int       // connection that carried the latest transmission of cur
 }
 
 func (m *mctx) send(b []byte) error {
@@ -70,6 +77,9 @@ func (m *mctx) recvCall() ([]byte, error) {
 }
 
 type world struct {
+	faults   bool
+	retry    time.Duration
+	wirePipe []int // connection of each message returned by the last newWire
 	deadline time.Duration
 	sock  mangos.Socket
 	ep    *vt.Endpoint
@@ -121,9 +131,13 @@ func setupCfg(nctx int, retry, deadline time.Duration) *world {
 // newWire returns the transport messages written since the last call.
 func (w *world) newWire() []vt.Sent {
 	var out []vt.Sent
+	w.wirePipe = w.wirePipe[:0]
 	for i, p := range w.pipes {
 		l := p.SentLog()
 		out = append(out, l[w.seen[i]:]...)
+		for range l[w.seen[i]:] {
+			w.wirePipe = append(w.wirePipe, i)
+		}
 		w.seen[i] = len(l)
 	}
 	return out
@@ -325,7 +339,9 @@ func (w *world) deliver(pi int, id uint32, tag string) {
 
 // settle compares every context with the model after quiescence.
 func (w *world) settle() {
-	if wire := w.newWire(); len(wire) != 0 {
+	if w.faults {
+		w.absorb()
+	} else if wire := w.newWire(); len(wire) != 0 {
 		kit.Failf("unexpected-transmission", "%d transport message(s) written without a Send (first %x)", len(wire), wire[0].Data)
 	}
 	for _, p := range w.pipes {
@@ -381,6 +397,209 @@ func (w *world) settle() {
 			}
 		}
 	}
+}
+
+// ---------------------------------------------------------------------------
+// histories with connection loss: a request can be waiting for a connection (first transmission
+// or re-transmission) when it is abandoned, answered late, or its context sends again.
+
+func (w *world) alive() []int {
+	var l []int
+	for i, p := range w.pipes {
+		if p.Alive() {
+			l = append(l, i)
+		}
+	}
+	return l
+}
+
+// absorb accounts for everything written since the last look: first transmissions of waiting
+// Sends and re-transmissions of outstanding requests (when and whether those happen is C04's
+// business; here only that nothing else is ever written).
+func (w *world) absorb() {
+	for i, sm := range w.newWire() {
+		if len(sm.Data) < 4 {
+			kit.Failf("send-wire-bytes", "wire message %x is shorter than a request id", sm.Data)
+		}
+		id := binary.BigEndian.Uint32(sm.Data)
+		pl := string(sm.Data[4:])
+		var m *mctx
+		for _, o := range w.ctxs {
+			if o.payload == pl {
+				m = o
+			}
+		}
+		switch {
+		case m == nil || m.ph != outstanding:
+			kit.Failf("unexpected-transmission", "transport message %x written: not the current unanswered request of any context", sm.Data)
+		case m.cur == 0:
+			if id&0x80000000 == 0 {
+				kit.Failf("send-id-bit", "%s: request id %08x lacks the request bit", m.name, id)
+			}
+			for _, o := range w.ctxs {
+				if o != m && (o.cur == id || (o.hasPrev && o.prev == id)) {
+					kit.Failf("send-id-unique", "request id %08x used by %s and %s", id, m.name, o.name)
+				}
+			}
+			if m.hasPrev && m.prev == id {
+				kit.Failf("send-id-unique", "%s: request id %08x reused for the next request", m.name, id)
+			}
+			m.cur = id
+			m.lastPipe = w.wirePipe[i]
+		case m.cur == id:
+			kit.Count("retransmitted")
+			m.lastPipe = w.wirePipe[i]
+		default:
+			kit.Failf("retransmission-id", "%s: request %q went out as %08x first and as %08x later", m.name, pl, m.cur, id)
+		}
+	}
+	for _, m := range w.ctxs {
+		if m.pending == nil {
+			continue
+		}
+		if m.pending.Done() {
+			if m.pending.Err != nil {
+				kit.Failf("send-error", "%s: Send returned %s", m.name, kit.ErrName(m.pending.Err))
+			}
+			if m.cur == 0 {
+				kit.Failf("send-returned-untransmitted", "%s: Send returned although the request was never handed to a connection", m.name)
+			}
+			m.pending = nil
+		} else if len(w.alive()) > 0 {
+			kit.Failf("send-blocked", "%s: Send still blocked although an idle peer is connected", m.name)
+		}
+	}
+}
+
+func (w *world) doSendF(m *mctx) {
+	w.nreq++
+	payload := fmt.Sprintf("q%d:%s", w.nreq, m.name)
+	waitingForPipe := m.ph == outstanding && m.cur != 0 && len(w.alive()) == 0
+	c := kit.Start("Send:"+m.name, func() (interface{}, error) { return nil, m.send([]byte(payload)) })
+	kit.Quiesce()
+	if m.recv != nil {
+		if !m.recv.Done() {
+			kit.Failf("recv-not-canceled", "%s: Recv of the abandoned request still blocked after a new Send", m.name)
+		}
+		if m.recv.Err != mangos.ErrCanceled {
+			kit.Failf("recv-cancel-result", "%s: Recv of the abandoned request returned %s / %q, want ErrCanceled", m.name, kit.ErrName(m.recv.Err), m.recv.Val)
+		}
+		kit.Count("canceled-by-send")
+		m.recv = nil
+	}
+	if m.cur != 0 {
+		m.prev, m.hasPrev = m.cur, true
+		m.queuedAbandon = waitingForPipe
+		if waitingForPipe {
+			kit.Count("abandoned-while-queued")
+		}
+	}
+	m.cur, m.ph, m.answer, m.payload, m.pending = 0, outstanding, "", payload, c
+	if len(w.alive()) == 0 {
+		kit.Count("send-waited-for-a-peer")
+	}
+	w.absorb()
+}
+
+// doDrop: the connection fails.  With retries disabled (RetryTime 0) a request whose latest
+// transmission went over it is given up (req.go: "not necessarily idempotent"): its Recv is
+// cancelled and a late reply is ignored; otherwise it is re-sent, which absorb accounts for.
+func (w *world) doDrop(pi int) {
+	w.pipes[pi].DropNow()
+	kit.Quiesce()
+	if w.retry != 0 {
+		return
+	}
+	for _, m := range w.ctxs {
+		if m.ph != outstanding || m.cur == 0 || m.lastPipe != pi {
+			continue
+		}
+		if m.recv != nil {
+			if !m.recv.Done() || m.recv.Err != mangos.ErrCanceled {
+				kit.Failf("recv-after-loss-no-retry", "%s: RetryTime 0 and the connection carrying the request failed: Recv done=%v %s / %q, want ErrCanceled", m.name, m.recv.Done(), kit.ErrName(m.recv.Err), m.recv.Val)
+			}
+			m.recv = nil
+		}
+		m.ph = idle
+		kit.Count("given-up-after-loss-without-retry")
+	}
+}
+
+func (w *world) eventsF() []event {
+	var evs []event
+	al := w.alive()
+	for _, m := range w.ctxs {
+		m := m
+		if m.pending == nil {
+			evs = append(evs, event{"send:" + m.name, func() { w.doSendF(m) }})
+		}
+		if m.recv == nil {
+			evs = append(evs, event{"recv:" + m.name, func() { w.doRecv(m) }})
+		}
+		if m.cur != 0 {
+			for _, pi := range al {
+				pi := pi
+				evs = append(evs, event{fmt.Sprintf("reply-cur:%s:p%d", m.name, pi), func() { w.deliver(pi, m.cur, "cur:"+m.name) }})
+			}
+		}
+		if m.hasPrev && len(al) > 0 {
+			evs = append(evs, event{"reply-prev:" + m.name, func() {
+				if m.queuedAbandon {
+					kit.Count("stale-after-queued-abandon-ignored")
+				}
+				w.deliver(al[len(al)-1], m.prev, "prev:"+m.name)
+			}})
+		}
+	}
+	for _, pi := range al {
+		pi := pi
+		evs = append(evs, event{fmt.Sprintf("drop:p%d", pi), func() { w.doDrop(pi) }})
+	}
+	if len(al) < 2 && len(w.pipes) < 4 {
+		evs = append(evs, event{"connect", func() {
+			w.pipes = append(w.pipes, w.ep.Connect())
+			w.seen = append(w.seen, 0)
+		}})
+	}
+	return evs
+}
+
+func histFaults(depth int) {
+	retry := time.Duration(-1)
+	if kit.ChooseFree(2) == 1 {
+		retry = 0
+	}
+	nctx := 1 + kit.ChooseFree(2)
+	if nctx == 2 {
+		depth--
+	}
+	w := setupCfg(nctx, retry, 0)
+	w.faults = true
+	w.retry = retry
+	for d := 0; d < depth; d++ {
+		evs := w.eventsF()
+		e := evs[kit.ChooseFree(len(evs))]
+		kit.Tracef("event %s", e.name)
+		kit.Observe("%s", e.name)
+		e.run()
+		kit.Quiesce()
+		w.settle()
+	}
+	// final: a peer is there again, whatever was waiting goes out, and every context receives once more
+	if len(w.alive()) == 0 {
+		w.pipes = append(w.pipes, w.ep.Connect())
+		w.seen = append(w.seen, 0)
+		kit.Quiesce()
+		w.settle()
+	}
+	for _, m := range w.ctxs {
+		if m.recv == nil {
+			w.doRecv(m)
+		}
+	}
+	kit.Quiesce()
+	w.settle()
+	kit.Must("Socket.Close", func() { _ = w.sock.Close() })
 }
 
 // ---------------------------------------------------------------------------
